@@ -418,6 +418,15 @@ func run(req request) result {
 				if len(cols) == 0 {
 					return result{Err: "a row of NULLs cannot be written as SQL text"}
 				}
+				// every third statement lists its columns in reverse order (values with them): a column list names columns, its
+				// order is the statement's own business
+				permuted := s.K%3 == 0 && len(cols) >= 2 && !s.X && !s.Y && !s.Guard
+				if permuted {
+					for a, b := 0, len(cols)-1; a < b; a, b = a+1, b-1 {
+						cols[a], cols[b] = cols[b], cols[a]
+						lits[a], lits[b] = lits[b], lits[a]
+					}
+				}
 				rowsText := "(" + strings.Join(lits, ", ") + ")"
 				if s.Guard {
 					var glits []string
@@ -434,7 +443,7 @@ func run(req request) result {
 					rowsText = "(" + strings.Join(glits, ", ") + "), " + rowsText
 				}
 				q := "INSERT INTO t (" + strings.Join(cols, ", ") + ") VALUES " + rowsText
-				if len(cols) == len(vals) && s.K%2 == 0 && !s.X && !s.Y {
+				if len(cols) == len(vals) && s.K%2 == 0 && !s.X && !s.Y && !permuted {
 					q = "INSERT INTO t VALUES " + rowsText
 				}
 				sr.SQL = q
@@ -443,9 +452,18 @@ func run(req request) result {
 				}
 			} else {
 				st := sql.InsertStatement{TableName: "t"}
-				if s.K%2 == 1 || s.X || s.Y {
+				permuted := s.K%3 == 0 && len(vals) >= 2 && !s.X && !s.Y && !s.Guard
+				if s.K%2 == 1 || s.X || s.Y || permuted {
 					for j := range vals {
 						st.InsertColumnsAndSource.InsertColumnList.ColumnNames = append(st.InsertColumnsAndSource.InsertColumnList.ColumnNames, colName(j+1))
+					}
+				}
+				if permuted {
+					names := st.InsertColumnsAndSource.InsertColumnList.ColumnNames
+					vals = append([]interface{}(nil), vals...)
+					for a, b := 0, len(vals)-1; a < b; a, b = a+1, b-1 {
+						names[a], names[b] = names[b], names[a]
+						vals[a], vals[b] = vals[b], vals[a]
 					}
 				}
 				if s.X {
